@@ -45,6 +45,7 @@ def harness_catalog():
         h['bound'] = meta.get('bound')
         h['form'] = meta.get('form', 'plain')
         h['twin'] = meta.get('twin')
+        h['confirm_with'] = meta.get('confirm_with')
         h['covers'] = meta.get('covers', '').split(',') if meta.get('covers') else []
         h['pair'] = meta.get('pair', '').split(',') if meta.get('pair') else []
         h['timeout'] = int(meta.get('timeout', '600'))
@@ -179,7 +180,7 @@ def run(prop, tier, seed):
                     if r['status'] in ('error', 'timeout', 'oom') and len(sel) > 1:
                         # re-run alone to get a clean classification
                         r = kani_run.run_harness(kdir, target, h['full'], h['timeout'], h['mem'])
-                    r['meta'] = {k: h[k] for k in ('props', 'tier', 'kind', 'bound', 'form', 'twin', 'covers', 'pair', 'name', 'module', 'expect', 'clause', 'unwind')}
+                    r['meta'] = {k: h[k] for k in ('props', 'tier', 'kind', 'bound', 'form', 'twin', 'confirm_with', 'covers', 'pair', 'name', 'module', 'expect', 'clause', 'unwind')}
                     kani_results.append(r)
                 kani_results.sort(key=lambda r: r['harness'])
                 # failures: get a counterexample, replay natively.  Cheapest failing harness first; once one
@@ -200,6 +201,18 @@ def run(prop, tier, seed):
                         continue
                     if r['status'] != 'failed':
                         continue
+                    if h['confirm_with']:
+                        # a modular harness replaces a callee by its contract; if the code stops calling that callee
+                        # (a harmless refactor) the stub no longer applies.  Alarm only if the harness that executes
+                        # the real callee fails as well.
+                        real = [x for x in kani_results if x['meta']['name'] == h['confirm_with']]
+                        if real and real[0]['status'] == 'proved':
+                            undecided.append('%s fails but %s (same clause, real callee) proves: the stubbed callee is probably no longer called; not an alarm' % (h['name'], h['confirm_with']))
+                            continue
+                        if real and real[0]['status'] == 'failed':
+                            # stubs are not applied in native playback: let the real-callee harness supply the counterexample
+                            also_failed.append(dict(obligation=h['name'], checks=[c['description'] for c in r['failed_checks'][:3]]))
+                            continue
                     if confirmed_one and not [k for k in known['findings'] if k['property'] == prop and k['obligation'] == h['name']]:
                         r['replay'] = dict(confirmed=None, detail='not replayed: another counterexample of this run was already confirmed')
                         also_failed.append(dict(obligation=h['name'], checks=[c['description'] for c in r['failed_checks'][:3]]))
@@ -303,7 +316,9 @@ def run(prop, tier, seed):
     # ---------------- evidence
     n_v_units = sum(r.get('verified', 0) for r in verus_results)
     # failed verification units that matter for THIS property: untagged failures, or clauses tagged with it
-    n_v_fail = len(set((r['kernel'], f['function']) for r in verus_results if r['status'] == 'failed' for f in r.get('failed', []) if not f['props'] or prop in f['props']))
+    stale_obs = set(x['obligation'] for x in stale)
+    n_v_fail = len(set((r['kernel'], f['function']) for r in verus_results if r['status'] == 'failed' for f in r.get('failed', [])
+                       if (not f['props'] or prop in f['props']) and f['obligation'] not in stale_obs))
     p_h = [r for r in kani_results if r['meta']['kind'] == 'P' and r['meta']['expect'] != 'fail']
     b_h = [r for r in kani_results if r['meta']['kind'] == 'B']
     n_k_ok = sum(1 for r in p_h if r['status'] == 'proved')
